@@ -68,7 +68,12 @@ FamWide ==
   { MkTx(<< MkIn(1, "small", FALSE, <<"none">>, l, {}) >>, << MkOut(1, "expl", "expl", "null", l, {}) >>) : l \in {75, 76, 252, 253, 65535, 65536} } \cup
   { MkTx(<< [SimpleIn(1) EXCEPT !.wit.sw = [k \in 1..n |-> B("", 0)]] >>, << SimpleOut(1) >>) : n \in {252, 253} } \cup
   { MkTx(<< [SimpleIn(1) EXCEPT !.wit.arp = [f |-> "i1.arp", len |-> l, a |-> "rp"]] >>,
-         << [SimpleOut(1) EXCEPT !.wit.rp = [f |-> "o1.rp", len |-> l, a |-> "rp"]] >>) : l \in {252, 253, 65535, 65536} }
+         << [SimpleOut(1) EXCEPT !.wit.rp = [f |-> "o1.rp", len |-> l, a |-> "rp"]] >>) : l \in {252, 253, 65535, 65536} } \cup
+  \* the remaining length / count prefixes of the witness: inflation-keys proof, surjection proof, pegin witness count, stack item lengths
+  { MkTx(<< [SimpleIn(1) EXCEPT !.wit.krp = [f |-> "i1.krp", len |-> l, a |-> "rp"]] >>,
+         << [SimpleOut(1) EXCEPT !.wit.sp = [f |-> "o1.sp", len |-> IF l = 65536 THEN 8226 ELSE l, a |-> "sp"]] >>) : l \in {252, 253, 65536} } \cup
+  { MkTx(<< [SimpleIn(1) EXCEPT !.wit.pw = [k \in 1..n |-> B("", 0)]] >>, << SimpleOut(1) >>) : n \in {252, 253} } \cup
+  { MkTx(<< [SimpleIn(1) EXCEPT !.wit.sw = << B("i1.sw1", l) >>, !.wit.pw = << B("i1.pw1", l) >>] >>, << SimpleOut(1) >>) : l \in {252, 253, 65535, 65536} }
 \* non-canonical in-memory shapes whose encodings the decoder must refuse: issuance flag with a null issuance
 FamNullIss ==
   { MkTx(<< MkIn(1, v, p, <<na, "null", "null">>, 0, {}) >>, << SimpleOut(1) >>) : v \in {"zero", "small"}, p \in BOOLEAN, na \in {"z", "sc"} }
@@ -143,6 +148,13 @@ FlagMutants(toks) == IF Len(toks) >= 2 /\ toks[2][1] = "u8" /\ toks[2][2] \in {0
                      THEN { SetTokAt(toks, 2, U8(1 - toks[2][2])), SetTokAt(toks, 2, U8(2)) } ELSE {}
 Truncations(toks) == { SubSeq(toks, 1, k) : k \in (IF Len(toks) > 6 THEN {Len(toks) - 1, Len(toks) - 2, Len(toks) \div 2, 1} ELSE 0..(Len(toks) - 1)) }
 Extensions(toks)  == { Append(toks, U8(0)), Append(toks, U32("1")) }
+\* only the length / count prefixes re-written one width wider: at the boundaries 252 | 253 and 65535 | 65536 this is the largest
+\* value a wider form must refuse and the smallest it must take
+WidenMutants(toks) == UNION { { SetTokAt(toks, i, t) : t \in MutTok(toks[i]) } : i \in { j \in DOMAIN toks : toks[j][1] = "viw" } }
+BoundaryBases ==
+  { MkTx(<< MkIn(1, "small", FALSE, <<"none">>, l, {}) >>, << MkOut(1, "expl", "expl", "null", l, {}) >>) : l \in {252, 253, 65535, 65536} } \cup
+  { MkTx([i \in 1..n |-> SimpleIn(i)], << SimpleOut(1) >>) : n \in {252, 253} } \cup
+  { MkTx(<< [SimpleIn(1) EXCEPT !.wit.sw = << B("i1.sw1", l) >>] >>, << SimpleOut(1) >>) : l \in {252, 253, 65535, 65536} }
 Mutants(toks) == LocalMutants(toks) \cup FlagMutants(toks) \cup Truncations(toks) \cup Extensions(toks)
 
 \* flag 1 with an all-empty witness section (only meaningful for a transaction without witness)
